@@ -29,12 +29,16 @@ func (v *AddServicesValidator) Validate(p patch.Patch) error {
 		return err
 	}
 
-	_, err = getRequiredArray(value)
+	arr, err := getRequiredArray(value)
 	if err != nil {
 		return fmt.Errorf("invalid add services value: %s", err.Error())
 	}
 
 	services := document.ParseServices(value)
+
+	if err := allEntriesRead(len(services), arr, "services", "objects"); err != nil {
+		return err
+	}
 
 	return validateServices(services)
 }
